@@ -391,7 +391,7 @@ func (s *solo) localHolders(lc *rpcbench.LocalCap) []holder {
 	}
 	// unresolved calls may still have their answer pending inside the Conn
 	for _, ac := range s.calls {
-		if ac.ans != nil && !ac.resolved && ac.pa != nil && ac.pa.returned && ac.pa.retSpecUsed != nil {
+		if ac.answer() != nil && !ac.resolved && ac.pa != nil && ac.pa.returned && ac.pa.retSpecUsed != nil {
 			for _, ce := range ac.pa.retSpecUsed.cexps {
 				if ce != nil && ce.local == lc {
 					hs = append(hs, holder{kind: "app-result", what: fmt.Sprintf("results of call uid=%x not looked at yet", ac.uid), maybe: ac.canceled})
@@ -434,7 +434,7 @@ func (s *solo) importHolders(pe *peerExport) []holder {
 		}
 	}
 	for _, ac := range s.calls {
-		if ac.released || ac.ans == nil || ac.pa == nil || !ac.pa.returned || ac.pa.retSpecUsed == nil {
+		if ac.released || ac.answer() == nil || ac.pa == nil || !ac.pa.returned || ac.pa.retSpecUsed == nil {
 			continue
 		}
 		for _, pc := range ac.pa.retSpecUsed.pcaps {
